@@ -4,11 +4,11 @@ from __future__ import annotations
 import ast
 from collections import deque
 
-from sa.astx import call_attr, call_name, dotted, src, walk_local
+from sa.astx import call_attr, call_name, src, walk_local
 from sa.effects import accesses
 from sa.selftest import Mutant, Silent
 from sa.source import AnalysisError, methods
-from sa.props._lib_k import MiniInterp, Tok
+from sa.props._lib_k import Func, Interp, Mock, Nonterminating
 
 PROPERTY = "C58"
 CS = "application/_client_service.py"
@@ -18,17 +18,21 @@ EXPLANATION = (
     "The automat declaration in makeMachine is read from the AST (states with factories, every S.upon(input[, nodata]).to(T)/.loop() "
     "chain, plain or as a pep614 decorator) into the state x input matrix. The resources each state factory registers are inferred "
     "from where it hands out c.<input> (addCallback/addErrback = connection attempt, constructor argument = connection spawned while "
-    "the attempt is outstanding, callLater = retry timer) and the effects of every factory / transition body (data.cancel(), waiter "
-    "creation, waiter resolution - derived from what the _Core methods do to their lists) are extracted in order. A forward "
-    "may-analysis explores every configuration (state, outstanding attempt / connection / retry, pending connect- and stop-waiters) "
-    "under automat's semantics (factory before body, re-entrant inputs postponed) and requires: every input a resource can still "
-    "produce and every public input has a transition; no attempt starts while an attempt or connection is open, no second timer; "
-    "connect waiters are resolved on entering a state that answers whenConnected immediately; stop waiters are resolved on "
-    "entering a state that answers stop immediately and are never stranded with nothing outstanding. Also decided: unawait / "
-    "finishStopping / failedWhenConnecting run concretely on small waiter lists (swap before firing, exact failure-limit "
-    "bookkeeping, each waiter once); failedAttempts is incremented only by the retry factory before computing the delay passed "
-    "to callLater and reset only on connection; ClientService forwards to the machine. Not decided: clock arithmetic of "
-    "backoffPolicy, cancellers that fire a success."
+    "the attempt is outstanding, callLater = retry timer); waiter effects of every factory / transition body are extracted in order "
+    "(derived from what the _Core methods do to their lists), and every factory / body is interpreted concretely on a model _Core to "
+    "tabulate what it does to failedAttempts and what it asks of the retry policy. A forward may-analysis explores every "
+    "configuration (state, outstanding attempt / connection / retry, pending connect- and stop-waiters, whether the last public "
+    "request was start or stop, a ghost count of consecutive failures since the last successful connection, failedAttempts) under "
+    "automat's semantics (factory before body, re-entrant inputs postponed) and requires: every input a resource can still produce "
+    "and every public input has a transition; no attempt starts while an attempt or connection is open, no second timer; after a "
+    "stop no attempt or retry is started, an idle stopped service rests in a state that answers stop immediately with no connect "
+    "waiter pending, an idle started service does not exist; connect waiters are resolved on entering a state that answers "
+    "whenConnected immediately; stop waiters may be pending only in states whose events resolve them and are never stranded; on "
+    "every entry to the retry-scheduling state the policy is asked for exactly the ghost count. unawait / finishStopping / the "
+    "failed-attempt body / the queueing body run concretely on small waiter lists (swap before firing, exact failure-limit "
+    "bookkeeping, each waiter once); the retry factory schedules once, with the policy's delay and the reconnect input, and returns "
+    "the delayed call; the attempt factory closes its chain with the errback and connects through the disconnect-reporting proxy; "
+    "ClientService forwards to the machine. Not decided: clock arithmetic of backoffPolicy, cancellers that fire a success."
 )
 ASSUMPTIONS = [
     "automat: first declared state is initial; a data-state factory runs before the transition body and only when the target differs "
@@ -239,10 +243,103 @@ def resources_of(func, inputs):
     return res
 
 
+# ---- concrete runs of factories / transition bodies (failure counter, retry scheduling) -------------------------------
+FCAP = 5   # failedAttempts values 0..FCAP are tabulated
+GCAP = 3   # consecutive failures explored
+
+
+class CancelledErrorModel(Exception):
+    pass
+
+
+def _mentions_counter(func, m, core_cls, seen=None):
+    seen = seen if seen is not None else set()
+    if id(func) in seen:
+        return False
+    seen.add(id(func))
+    cm = methods(core_cls)
+    for n in ast.walk(func):
+        if isinstance(n, ast.Attribute) and n.attr == "failedAttempts":
+            return True
+        if isinstance(n, ast.Call):
+            if isinstance(n.func, ast.Name) and n.func.id in m.funcs and _mentions_counter(m.funcs[n.func.id], m, core_cls, seen):
+                return True
+            if isinstance(n.func, ast.Attribute) and n.func.attr in cm and _mentions_counter(cm[n.func.attr], m, core_cls, seen):
+                return True
+    return False
+
+
+def model_core(mod, funcs, policy=None):
+    """(interpreter, model _Core instance, makeMachine's local functions as interpreted closures, shared event log)."""
+    it = Interp({}, budget=20000)
+    log = it.log
+    it.globals.update({"Deferred": Mock("Deferred", log), "succeed": Mock("succeed", log), "fail": Mock("fail", log), "maybeDeferred": Mock("maybeDeferred", log),
+                       "CancelledError": CancelledErrorModel, "Failure": Mock("Failure", log), "_DisconnectFactory": Mock("_DisconnectFactory", log),
+                       "Logger": Mock("Logger", log), "_goodEnoughRandom": lambda: 0.0})
+    it.load(mod, only={"_Core"})
+    if "_Core" not in it.globals:
+        raise AnalysisError("C58: class _Core not found")
+    core = it.globals["_Core"](Mock("endpoint", log), Mock("factory", log), policy or (lambda n: ("DELAY", n)), Mock("clock", log), None)
+    closure = {}
+    for nm, node in (funcs or {}).items():
+        closure[nm] = Func(it, node, [closure], nm)
+    return it, core, closure, log
+
+
+class Concrete:
+    """Every state factory and transition body interpreted on a model _Core, for each value of failedAttempts."""
+
+    def __init__(self, ctx, m):
+        self.ctx, self.m = ctx, m
+        self.mod = ctx.mod(CS)
+        self.core_cls = ctx.cls(CS, "_Core")
+        self.table = {}     # func name -> {fa: fa'}
+        self.policy = {}    # func name -> {fa: [policy arguments]}
+        self.later = {}     # func name -> {fa: [(delay, callable)]}
+        self.returned = {}  # func name -> {fa: return value}
+        names = {f for f in m.factory.values() if f} | {t["body"].name for t in m.trans.values() if t["body"] is not None}
+        for name in sorted(names):
+            self._tabulate(name)
+
+    def _run(self, name, fa):
+        calls = []
+
+        def policy(*a, **k):
+            calls.append(a + tuple(k.values()))
+            return ("DELAY",) + a
+        it, core, closure, log = model_core(self.mod, self.m.funcs, policy)
+        core.attrs["failedAttempts"] = fa
+        f = closure[name]
+        a = f.node.args
+        pos = a.posonlyargs + a.args
+        need = len(pos) - len(a.defaults)
+        args = [Mock("c", log), core] + [Mock(p.arg, log) for p in pos[2:need]]
+        ret = f(*args)
+        later = [x[1] for x in log if x[0] == "clock.callLater"]
+        return core.attrs.get("failedAttempts"), calls, later, ret
+
+    def _tabulate(self, name):
+        node = self.m.funcs[name]
+        self.table[name], self.policy[name], self.later[name], self.returned[name] = {}, {}, {}, {}
+        for fa in range(0, FCAP + 1):
+            try:
+                fa2, calls, later, ret = self._run(name, fa)
+            except (AnalysisError, Nonterminating, Exception) as e:  # noqa: B902
+                if _mentions_counter(node, self.m, self.core_cls):
+                    raise AnalysisError(f"C58: {name} touches failedAttempts and cannot be interpreted: {type(e).__name__}: {e}")
+                fa2, calls, later, ret = fa, [], [], None
+            if not isinstance(fa2, int):
+                raise AnalysisError(f"C58: failedAttempts becomes {fa2!r} in {name}")
+            self.table[name][fa] = max(0, min(FCAP, fa2))
+            self.policy[name][fa] = calls
+            self.later[name][fa] = later
+            self.returned[name][fa] = ret
+
+
 # ---- the may-analysis ---------------------------------------------------------------------------------------
 class Explorer:
-    def __init__(self, ctx, m, core_sem):
-        self.ctx, self.m = ctx, m
+    def __init__(self, ctx, m, core_sem, conc):
+        self.ctx, self.m, self.conc = ctx, m, conc
         self.data_states = {n for n, f in m.factory.items() if f}
         self.res = {n: resources_of(m.funcs.get(f), m.inputs) for n, f in m.factory.items() if f}
         att = [n for n, r in self.res.items() if r["cb"] or r["eb"]]
@@ -295,7 +392,7 @@ class Explorer:
 
     def deliver(self, cfg, inp, hist):
         """Returns the configuration after input ``inp`` (with postponed cancel deliveries)."""
-        s, a0, a1, c, r, w, sw = cfg
+        s, a0, a1, c, r, w, sw, run, g, fa = cfg
         t = self.m.trans.get((s, inp))
         if t is None:
             self.holes.setdefault((s, inp), hist + [inp])
@@ -306,7 +403,14 @@ class Explorer:
         d = t["dst"]
         edge = f"{s} x {inp} -> {d}"
         fx = []
+        if inp in self.cb:
+            g = 0   # a connection was established: the count of consecutive failures starts again
         if d != s and self.m.factory.get(d):
+            fname = self.m.factory[d]
+            if d in (self.att_state, self.ret_state) and run == 0:
+                self.problem("stopped/no-new-work", f"{QM} | {edge}",
+                             f"the last request was stopService, yet this transition {'starts a connection attempt' if d == self.att_state else 'schedules a retry'}: "
+                             "a stopped service reconnects", hist + [inp])
             if d == self.att_state:
                 if a0 + c >= 1:
                     self.problem("one-connection/new-attempt-while-open", f"{QM} | {edge}",
@@ -316,7 +420,20 @@ class Explorer:
                 if r >= 1:
                     self.problem("one-connection/second-retry-timer", f"{QM} | {edge}", "a second retry timer is scheduled while one is pending", hist + [inp])
                 r = min(CAP, r + 1)
+                if g >= GCAP:
+                    self.tainted = True   # bound of the exploration, not a verdict
+                    return cfg
+                g += 1
+                args = self.conc.policy[fname][fa]
+                if not (len(args) == 1 and args[0] == (g,)):
+                    said = args[0][0] if args and len(args[0]) == 1 else args
+                    self.problem("retry/delay-counts-consecutive-failures", f"{QM} | {edge}",
+                                 f"this is consecutive failure number {g} since the last successful connection but the retry policy is asked for the delay of "
+                                 f"attempt {said!r}: the retry does not wait the policy's delay for the current number of failures", hist + [inp])
+            fa = self.conc.table[fname][fa]
             fx += self.fx_factory[d]
+        if t["body"] is not None:
+            fa = self.conc.table[t["body"].name][fa]
         fx += self.fx_body[(s, inp)]
         post = []
         for e in fx:
@@ -338,7 +455,7 @@ class Explorer:
                         post += self.eb
                 elif s == self.ret_state and r:
                     r -= 1
-        new = (d, a0, a1, c, r, w, sw)
+        new = (d, a0, a1, c, r, w, sw, run, g, fa)
         if d in self.immediate_when and d != s and w:
             self.problem("waiters/resolved-on-entry", f"{QM} | {edge}",
                          f"whenConnected Deferreds are still pending after entering {d}, which answers whenConnected immediately: nothing will ever fire them", hist + [inp])
@@ -351,34 +468,47 @@ class Explorer:
         return new
 
     def run(self):
-        init = (self.m.initial, 0, 0, 0, 0, 0, 0)
+        init = (self.m.initial, 0, 0, 0, 0, 0, 0, None, 0, 0)
         self.parent[init] = None
         dq = deque([init])
         seen = {init}
         while dq:
             cfg = dq.popleft()
-            s, a0, a1, c, r, w, sw = cfg
+            s, a0, a1, c, r, w, sw, run, g, fa = cfg
             hist = self.history(cfg)
-            if sw and not (a0 or a1 or c or r):
+            idle = not (a0 or a1 or c or r)
+            if sw and idle:
                 self.problem("stop-waiters/never-stranded", f"{QM} | {s}",
                              f"in {s} a stopService Deferred is pending while no attempt, connection or timer is outstanding: it can never fire", hist)
+            if idle and run == 0:
+                if s not in self.immediate_stop:
+                    self.problem("stopped/converges-to-stopped", f"{QM} | {s}",
+                                 f"the service was stopped and nothing is outstanding any more, yet the machine rests in {s}, a state that does not answer stop immediately", hist)
+                elif w:
+                    self.problem("stopped/connect-waiters-resolved", f"{QM} | {s}",
+                                 "the service is stopped and idle but whenConnected Deferreds obtained before the stop are still pending", hist)
+            if idle and run == 1:
+                self.problem("running/never-idle", f"{QM} | {s}",
+                             f"the service was started and rests in {s} with no attempt, connection or retry outstanding: it will never connect", hist)
             steps = []
             for i in self.m.public:
-                steps.append((i, cfg, i))
+                run2 = 1 if i == "start" else (0 if i == "stop" else run)
+                steps.append((i, (s, a0, a1, c, r, w, sw, run2, g, fa), i))
+            rest = (w, sw, run, g, fa)
             if a0:
                 if self.spawn:
-                    steps.append(("<connection established>", (s, a0 - 1, min(CAP, a1 + 1), min(CAP, c + 1), r, w, sw), None))
+                    steps.append(("<connection established>", (s, a0 - 1, min(CAP, a1 + 1), min(CAP, c + 1), r) + rest, None))
                 for i in self.eb + ([] if self.spawn else self.cb):
-                    steps.append((i, (s, a0 - 1, a1, c, r, w, sw), i))
+                    steps.append((i, (s, a0 - 1, a1, c, r) + rest, i))
             if a1:
                 for i in sorted(set(self.cb + self.eb)):
-                    steps.append((i, (s, a0, a1 - 1, c, r, w, sw), i))
+                    steps.append((i, (s, a0, a1 - 1, c, r) + rest, i))
             if c:
                 for i in self.spawn:
-                    steps.append((i, (s, a0, a1, c - 1, r, w, sw), i))
+                    steps.append((i, (s, a0, a1, c - 1, r) + rest, i))
             if r:
                 for i in self.timer:
-                    steps.append((i, (s, a0, a1, c, r - 1, w, sw), i))
+                    steps.append((i, (s, a0, a1, c, r - 1) + rest, i))
             for label, pre, inp in steps:
                 self.tainted = False
                 new = self.deliver(pre, inp, hist) if inp is not None else pre
@@ -392,13 +522,17 @@ class Explorer:
         return seen
 
 
-def check(ctx):
-    mod = ctx.mod(CS)
-    m = extract(ctx)
+def check_machine(ctx, m):
     ctx.floor("matrix/states", len(m.order), 3, "states")
     ctx.floor("matrix/transitions", len(m.trans), 10, "transitions")
+    # O2: public inputs total on every declared state (does not need the exploration)
+    for s in m.order:
+        for i in m.public:
+            ctx.check((s, i) in m.trans, "matrix/public-input-total", f"{QM} | {s} x {i}",
+                      f"{i}() in state {s} has no transition: automat raises NoTransition to the caller", detail="declared")
     core_sem = core_semantics(ctx)
-    ex = Explorer(ctx, m, core_sem)
+    conc = Concrete(ctx, m)
+    ex = Explorer(ctx, m, core_sem, conc)
     ctx.need(ex.att_state, "a state whose factory registers the connection attempt callbacks")
     qa = QM + "." + (m.factory[ex.att_state] or "?")
     ok = True
@@ -407,17 +541,12 @@ def check(ctx):
     ok &= ctx.check(bool(ex.spawn), "attempt/outcomes-delivered", qa + " | disconnect", "the loss of an established connection is never reported to the machine")
     ok &= ctx.check(bool(ex.ret_state and ex.timer), "attempt/outcomes-delivered", QM + " | retry timer", "no state schedules the reconnect input with callLater")
     if not ok:
-        return
-    check_attempt(ctx, m, ex)
+        return None
     configs = ex.run()
     ctx.extra["matrix"] = {s: {i: (m.trans[(s, i)]["dst"] if (s, i) in m.trans else "-") for i in sorted(m.inputs)} for s in m.order}
     ctx.extra["configurations_explored"] = len(configs)
     reach = {c[0] for c in configs}
-    # O2: public inputs total on every declared state
     for s in m.order:
-        for i in m.public:
-            ctx.check((s, i) in m.trans, "matrix/public-input-total", f"{QM} | {s} x {i}",
-                      f"{i}() in state {s} has no transition: automat raises NoTransition to the caller", detail="declared")
         if s not in reach:
             ctx.note(f"state {s} is not reachable in the abstract exploration")
     # O1: resource-produced inputs
@@ -430,36 +559,60 @@ def check(ctx):
         ctx.violation("matrix/no-rejected-event", f"{QM} | {s} x {i}",
                       f"{i} can be delivered while the machine is in {s}, which declares no transition for it (automat raises NoTransition inside the reactor callback)",
                       witness=" ; ".join(h))
-    # the other rules
-    seen_rules = set()
     for (rule, construct), (fails, h) in sorted(ex.problems.items()):
         ctx.violation(rule, construct, fails, witness=" ; ".join(h))
-        seen_rules.add(rule)
+
+    def ok_unless(rule, construct):
+        if (rule, construct) not in ex.problems:
+            ctx.ok(rule, construct)
     for t in m.trans.values():
-        edge = f"{t['src']} x {t['inp']} -> {t['dst']}"
+        edge = f"{QM} | {t['src']} x {t['inp']} -> {t['dst']}"
         if t["src"] not in reach:
             continue
-        if t["dst"] == ex.att_state and t["dst"] != t["src"] and ("one-connection/new-attempt-while-open", f"{QM} | {edge}") not in ex.problems:
-            ctx.ok("one-connection/new-attempt-while-open", f"{QM} | {edge}")
-        if t["dst"] == ex.ret_state and t["dst"] != t["src"] and ("one-connection/second-retry-timer", f"{QM} | {edge}") not in ex.problems:
-            ctx.ok("one-connection/second-retry-timer", f"{QM} | {edge}")
-        if t["dst"] in ex.immediate_when and t["dst"] != t["src"] and ("waiters/resolved-on-entry", f"{QM} | {edge}") not in ex.problems:
-            ctx.ok("waiters/resolved-on-entry", f"{QM} | {edge}")
-        if t["dst"] not in ex.stopping and ("stop-waiters/resolved-on-entry", f"{QM} | {edge}") not in ex.problems:
-            ctx.ok("stop-waiters/resolved-on-entry", f"{QM} | {edge}")
+        if t["dst"] == ex.att_state and t["dst"] != t["src"]:
+            ok_unless("one-connection/new-attempt-while-open", edge)
+        if t["dst"] == ex.ret_state and t["dst"] != t["src"]:
+            ok_unless("one-connection/second-retry-timer", edge)
+            ok_unless("retry/delay-counts-consecutive-failures", edge)
+        if t["dst"] in (ex.att_state, ex.ret_state) and t["dst"] != t["src"]:
+            ok_unless("stopped/no-new-work", edge)
+        if t["dst"] in ex.immediate_when and t["dst"] != t["src"]:
+            ok_unless("waiters/resolved-on-entry", edge)
+        if t["dst"] not in ex.stopping:
+            ok_unless("stop-waiters/resolved-on-entry", edge)
     for s in m.order:
-        if ("stop-waiters/never-stranded", f"{QM} | {s}") not in ex.problems and s in reach:
-            ctx.ok("stop-waiters/never-stranded", f"{QM} | {s}")
-
+        if s in reach:
+            for rule in ("stop-waiters/never-stranded", "stopped/converges-to-stopped", "stopped/connect-waiters-resolved", "running/never-idle"):
+                ok_unless(rule, f"{QM} | {s}")
     # cancelling transitions really cancel their state's resource
     for k, t in m.trans.items():
         if t["inp"] == "stop" and t["src"] in (ex.att_state, ex.ret_state) and t["dst"] != t["src"]:
             ctx.check("cancel" in ex.fx_body[k], "stop/cancels-outstanding-work", f"{QM} | {t['src']} x stop",
                       f"stop in {t['src']} leaves the state's {'connection attempt' if t['src'] == ex.att_state else 'retry timer'} running (not cancelled unconditionally)")
+    return ex
 
-    check_core(ctx, m, ex)
-    check_retry(ctx, m, ex)
-    check_service(ctx)
+
+def check(ctx):
+    box = {}
+    with ctx.section("makeMachine declaration"):
+        box["m"] = extract(ctx)
+    m = box.get("m")
+    if m is not None:
+        with ctx.section("state machine exploration"):
+            box["ex"] = check_machine(ctx, m)
+    ex = box.get("ex")
+    if ex is not None:
+        with ctx.section("connection attempt wiring"):
+            check_attempt(ctx, m, ex)
+        with ctx.section("waiter lists"):
+            check_core(ctx, m, ex)
+        with ctx.section("retry scheduling"):
+            check_retry(ctx, m, ex)
+    else:
+        with ctx.section("waiter lists (_Core only)"):
+            check_core(ctx, None, None)
+    with ctx.section("ClientService wrappers"):
+        check_service(ctx)
 
 
 def check_attempt(ctx, m, ex):
@@ -505,102 +658,91 @@ def check_attempt(ctx, m, ex):
 
 
 # ---- K6: waiter list handling, run concretely ------------------------------------------------------------------
+def _fired(log):
+    return [(x[0], x[1]) for x in log if x[0] != "setattr" and x[0].split(".")[-1] in ("callback", "errback")]
+
+
+def _first_index(log, pred):
+    return next((i for i, x in enumerate(log) if pred(x)), None)
+
+
 def check_core(ctx, m, ex):
+    mod = ctx.mod(CS)
     for meth, attr, has_val in (("unawait", "awaitingConnected", True), ("finishStopping", "stopWaiters", False)):
-        f = ctx.func(CS, f"_Core.{meth}")
+        ctx.func(CS, f"_Core.{meth}")
         q = QC + meth
-        items = [(Tok("w1"), None), (Tok("w2"), 1)] if has_val else [Tok("w1"), Tok("w2")]
-        it = MiniInterp(f, "<none>", ())
-        env = {f"self.{attr}": list(items)}
-        if has_val:
-            env[f.args.args[1].arg] = "VALUE"
-        it.run(env)
-        calls = [e for e in it.events if e[0] == "call"]
-        assigns = [i for i, e in enumerate(it.events) if e[0] == "assign" and e[1] == f"self.{attr}" and e[2] == []]
-        first_call = next((i for i, e in enumerate(it.events) if e[0] == "call"), None)
-        fired = [e[1] for e in calls if e[2] in ("callback", "errback")]
-        ctx.check(fired == ["w1", "w2"], "waiters/each-fired-once", q, f"the pending Deferreds are not each fired exactly once, in order (fired: {fired})")
+        it, core, closure, log = model_core(mod, m.funcs if m is not None else {})
+        w1, w2 = Mock("w1", log), Mock("w2", log)
+        core.attrs[attr] = [(w1, None), (w2, 1)] if has_val else [w1, w2]
+        del log[:]
+        try:
+            it.getattr_(core, meth)(*(["VALUE"] if has_val else []))
+        except Nonterminating:
+            ctx.violation("waiters/each-fired-once", q, "firing the waiters does not terminate")
+            continue
+        fired = _fired(log)
         want = ("VALUE",) if has_val else (None,)
-        ctx.check(all(e[3] == want for e in calls), "waiters/each-fired-once", q + " | value", "the waiters are not fired with the given result")
-        ctx.check(bool(assigns) and (first_call is None or assigns[0] < first_call) and it.env.get(f"self.{attr}") == [], "waiters/list-swapped-before-firing", q,
+        ctx.check([f[0] for f in fired] == ["w1.callback", "w2.callback"], "waiters/each-fired-once", q,
+                  f"the pending Deferreds are not each fired exactly once, in order (fired: {[f[0] for f in fired]})")
+        ctx.check(all(f[1] == want for f in fired), "waiters/each-fired-once", q + " | value", "the waiters are not fired with the given result")
+        emptied = _first_index(log, lambda x: x[0] == "setattr" and x[1] is core and x[2] == attr and len(x[3]) == 0)
+        first = _first_index(log, lambda x: x[0] != "setattr" and x[0].split(".")[-1] in ("callback", "errback"))
+        ctx.check(emptied is not None and (first is None or emptied < first) and core.attrs.get(attr) == [], "waiters/list-swapped-before-firing", q,
                   f"self.{attr} is not emptied before the first waiter is fired: a callback that re-enters the service sees (and can re-fire) Deferreds that are being fired")
-    # failedWhenConnecting
+    if m is None:
+        return
+    # the transition body for a failed attempt in the connecting state
     t = next((t for t in m.trans.values() if t["body"] is not None and t["inp"] in ex.eb and t["src"] == ex.att_state), None)
     ctx.need(t, "transition body for a failed attempt in the connecting state")
     f = t["body"]
     q = QM + "." + f.name
-    core = f.args.args[1].arg
-    fail_p = f.args.args[-1].arg
-    it = MiniInterp(f, "<none>", ())
-    pending = [(Tok("w1"), None), (Tok("w2"), 1), (Tok("w3"), 2), (Tok("w4"), 3), (Tok("w5"), 0)]
-    it.run({f"{core}.awaitingConnected": list(pending), fail_p: "FAILURE"})
-    calls = [e for e in it.events if e[0] == "call"]
-    fired = [e[1] for e in calls]
-    left = it.env.get(f"{core}.awaitingConnected")
-    ctx.check(fired == ["w2", "w5"] and all(e[2] in ("callback", "errback") and e[3] == ("FAILURE",) for e in calls), "waiters/failure-limit", q + " | fired",
-              f"waiters whose failure limit is reached by this failure are not exactly the ones fired with it (limits None,1,2,3,0 -> fired {fired})")
-    ctx.check(left is not None and [tuple(x) for x in left] == [("w1", None), ("w3", 1), ("w4", 2)], "waiters/failure-limit", q + " | kept",
-              f"the remaining waiters / their remaining failure counts are wrong after one failure: {left}")
-    ai = [i for i, e in enumerate(it.events) if e[0] == "assign" and e[1] == f"{core}.awaitingConnected"]
-    ci = [i for i, e in enumerate(it.events) if e[0] == "call"]
-    ctx.check(bool(ai) and (not ci or ai[-1] < ci[0]), "waiters/list-swapped-before-firing", q,
+    it, core, closure, log = model_core(mod, m.funcs)
+    ws = [Mock(f"w{i}", log) for i in range(1, 6)]
+    limits = [None, 1, 2, 3, 0]
+    core.attrs["awaitingConnected"] = list(zip(ws, limits))
+    del log[:]
+    a = f.args
+    need = len(a.args) - len(a.defaults)
+    args = [Mock("c", log), core] + [Mock(p.arg, log) for p in a.args[2:need - 1]] + ["FAILURE"]
+    closure[f.name](*args)
+    fired = _fired(log)
+    left = core.attrs.get("awaitingConnected")
+    ctx.check([x[0] for x in fired] == ["w2.callback", "w5.callback"] and all(x[1] == ("FAILURE",) for x in fired), "waiters/failure-limit", q + " | fired",
+              f"waiters whose failure limit is reached by this failure are not exactly the ones fired with it (limits None,1,2,3,0 -> fired {[x[0] for x in fired]})")
+    ok = isinstance(left, list) and [(repr(x[0]), x[1]) for x in left] == [("<w1>", None), ("<w3>", 1), ("<w4>", 2)]
+    ctx.check(ok, "waiters/failure-limit", q + " | kept", f"the remaining waiters / their remaining failure counts are wrong after one failure: {left}")
+    detached = [i for i, x in enumerate(log) if x[0] == "setattr" and x[1] is core and x[2] == "awaitingConnected"]
+    first = _first_index(log, lambda x: x[0] != "setattr" and x[0].split(".")[-1] in ("callback", "errback"))
+    ctx.check(bool(detached) and (first is None or detached[-1] < first), "waiters/list-swapped-before-firing", q,
               "awaitingConnected still contains the Deferreds being fired while their callbacks run (a re-entrant failure would fire them twice)")
     # awaiting: the queued entry is (deferred, limit) and that deferred is returned
     for k, t2 in m.trans.items():
         b = t2["body"]
         if t2["inp"] == "whenConnected" and b is not None and "W+" in ex.fx_body[k]:
-            apps = [c for c in ast.walk(b) if isinstance(c, ast.Call) and call_attr(c) == "append"]
-            rets = [r for r in ast.walk(b) if isinstance(r, ast.Return)]
-            lim = b.args.args[-1].arg
-            ok = len(apps) == 1 and isinstance(apps[0].args[0], ast.Tuple) and len(apps[0].args[0].elts) == 2 and src(apps[0].args[0].elts[1]) == lim \
-                and len(rets) == 1 and src(rets[0].value) == src(apps[0].args[0].elts[0])
+            it, core, closure, log = model_core(mod, m.funcs)
+            ret = closure[b.name](Mock("c", log), core, 7)
+            queue = core.attrs.get("awaitingConnected")
+            ok = isinstance(queue, list) and len(queue) == 1 and tuple(queue[0])[0] is ret and tuple(queue[0])[1] == 7
             ctx.check(ok, "waiters/queued-with-limit", QM + "." + b.name, "whenConnected does not queue (the returned Deferred, failAfterFailures)")
             break
 
 
-# ---- K7: retry counter --------------------------------------------------------------------------------------------
+# ---- K7: retry scheduling (concrete runs of the retry factory) -----------------------------------------------------------
 def check_retry(ctx, m, ex):
-    mk = m.func
-    fac_ret = m.funcs[m.factory[ex.ret_state]]
-    conn_states = [s for s in ex.immediate_when if m.factory.get(s)]
-    acc = []
-    for name, f in m.funcs.items():
-        acc += accesses(f, name, {"failedAttempts"}, receivers=None)
-    for a in acc:
-        k = ctx.construct(QM + "." + a.func, a.node)
-        if a.kind == "augassign":
-            ok = a.func == fac_ret.name and isinstance(a.node.op, ast.Add) and isinstance(a.node.value, ast.Constant) and a.node.value.value == 1
-            ctx.check(ok, "retry/counter-writes", k, "failedAttempts is changed other than by +1 in the retry-scheduling factory")
-        elif a.kind == "assign":
-            ok = isinstance(a.node.value, ast.Constant) and a.node.value.value == 0 and any(m.factory.get(s) == a.func for s in conn_states)
-            ctx.check(ok, "retry/counter-writes", k, "failedAttempts is reset somewhere else than when a connection is established")
-        else:
-            ctx.violation("retry/counter-writes", k, f"unexpected {a.kind} of failedAttempts")
-    ctx.check(any(a.kind == "augassign" for a in acc), "retry/counter-writes", QM + " | increment", "consecutive failures are no longer counted")
-    ctx.check(any(a.kind == "assign" for a in acc), "retry/counter-writes", QM + " | reset", "the failure count is never reset by a successful connection")
-    g = ctx.cfg(fac_ret)
-    q = QM + "." + fac_ret.name
-    core = fac_ret.args.args[1].arg
-    inc = g.ids(lambda n: n.kind == "stmt" and isinstance(n.ast, ast.AugAssign) and src(n.ast.target) == f"{core}.failedAttempts")
-    pol = g.find(lambda x: isinstance(x, ast.Call) and call_name(x) == f"{core}.timeoutForAttempt")
-    later = g.find(lambda x: isinstance(x, ast.Call) and call_attr(x) == "callLater")
-    ctx.check(len(pol) == 1 and len(later) == 1, "retry/delay-from-policy", q, "the retry factory does not compute one delay from the policy and schedule one call")
-    if len(pol) == 1 and len(later) == 1:
-        pc = next(x for x in walk_local(g.node(pol[0]).ast) if isinstance(x, ast.Call) and call_name(x) == f"{core}.timeoutForAttempt")
-        ctx.check(len(pc.args) == 1 and src(pc.args[0]) == f"{core}.failedAttempts", "retry/delay-from-policy", ctx.construct(q, pc),
-                  "the policy is not asked about the current number of consecutive failures")
-        w = g.must_precede(inc, pol)
-        ctx.check(bool(inc) and w is None, "retry/delay-from-policy", ctx.construct(q, pc) + " | after increment",
-                  "the delay is computed before this failure is counted (first retry uses the delay for 0 failures)", witness=g.describe(w))
-        lc = next(x for x in walk_local(g.node(later[0]).ast) if isinstance(x, ast.Call) and call_attr(x) == "callLater")
-        st = g.node(pol[0]).ast
-        dv = st.targets[0].id if isinstance(st, ast.Assign) and isinstance(st.targets[0], ast.Name) else None
-        ok = len(lc.args) >= 2 and (src(lc.args[0]) == dv or src(lc.args[0]) == src(pc)) and src(lc.args[1]) == f"{fac_ret.args.args[0].arg}.{ex.timer[0]}"
-        ctx.check(ok, "retry/delay-from-policy", ctx.construct(q, lc), "callLater is not given the policy's delay and the reconnect input")
-        rets = [r for r in ast.walk(fac_ret) if isinstance(r, ast.Return)]
-        ctx.check(len(rets) == 1 and (rets[0].value is lc or any(x is lc for x in ast.walk(rets[0].value))) or
-                  (len(rets) == 1 and isinstance(rets[0].value, ast.Name)), "retry/delay-from-policy", q + " | returns the delayed call",
-                  "the retry state's data is not the delayed call (stop could not cancel it)")
+    fname = m.factory[ex.ret_state]
+    q = QM + "." + fname
+    conc = ex.conc
+    for fa in (0, 1, 2):
+        calls = conc.policy[fname][fa]
+        later = conc.later[fname][fa]
+        ctx.check(len(calls) == 1 and len(calls[0]) == 1, "retry/delay-from-policy", f"{q} | policy consulted once (failedAttempts={fa})",
+                  f"the retry factory asks the policy {len(calls)} times / with {calls} instead of once with the failure count")
+        ok = len(later) == 1 and len(later[0]) >= 2 and calls and later[0][0] == ("DELAY",) + calls[0] and repr(later[0][1]) == f"<c.{ex.timer[0]}>"
+        ctx.check(ok, "retry/delay-from-policy", f"{q} | callLater(delay, c.{ex.timer[0]}) (failedAttempts={fa})",
+                  f"the retry is not scheduled exactly once with the delay the policy returned and the reconnect input (callLater calls: {later})")
+        ret = conc.returned[fname][fa]
+        ctx.check(repr(ret) == "<clock.callLater()>", "retry/delay-from-policy", f"{q} | returns the delayed call (failedAttempts={fa})",
+                  "the retry state's data is not the delayed call: stop could not cancel the timer")
 
 
 def check_service(ctx):
@@ -656,8 +798,8 @@ MUTANTS = [
     Mutant("fire-before-detach", CS, "        s.awaitingConnected = notReady\n        for w in ready:\n            w.callback(failure)\n", "        for w in ready:\n            w.callback(failure)\n        s.awaitingConnected = notReady\n",
            expect_rule="waiters/list-swapped-before-firing"),
     Mutant("delay-before-increment", CS, "        s.failedAttempts += 1\n        delay = s.timeoutForAttempt(s.failedAttempts)\n", "        delay = s.timeoutForAttempt(s.failedAttempts)\n        s.failedAttempts += 1\n",
-           expect_rule="retry/delay-from-policy"),
-    Mutant("counter-not-reset", CS, "        s.failedAttempts = 0\n        s.unawait(protocol._protocol)\n", "        s.unawait(protocol._protocol)\n", expect_rule="retry/counter-writes"),
+           expect_rule="retry/delay-counts-consecutive-failures"),
+    Mutant("counter-not-reset", CS, "        s.failedAttempts = 0\n        s.unawait(protocol._protocol)\n", "        s.unawait(protocol._protocol)\n", expect_rule="retry/delay-counts-consecutive-failures"),
     Mutant("remember-connection-forgets-waiters", CS, "        s.failedAttempts = 0\n        s.unawait(protocol._protocol)\n", "        s.failedAttempts = 0\n", expect_rule="waiters/resolved-on-entry"),
     Mutant("errback-before-prepare", CS, "            connectingProxy.addCallback(prepare)\n            .addCallback(c._connectionMade)\n            .addErrback(c._connectionFailed)\n",
            "            connectingProxy.addErrback(c._connectionFailed)\n            .addCallback(prepare)\n            .addCallback(c._connectionMade)\n", expect_rule="attempt/errback-closes-chain"),
@@ -666,6 +808,18 @@ MUTANTS = [
     Mutant("lost-notification-not-in-finally", CS, "        try:\n            return self._protocol.connectionLost(reason)\n        finally:\n            self._lostNotification(reason)\n",
            "        result = self._protocol.connectionLost(reason)\n        self._lostNotification(reason)\n        return result\n", expect_rule="attempt/disconnect-always-reported"),
     Mutant("stop-connected-keeps-transport", CS, "        protocol._transport.loseConnection()\n", "", expect_rule="stop/closes-connection"),
+    Mutant("second-stop-while-restarting-stays-restarting", CS, "    @pep614(Restarting.upon(_Client.stop).to(Disconnecting))\n", "    @pep614(Restarting.upon(_Client.stop).loop())\n",
+           expect_rule="stopped/no-new-work"),
+    Mutant("failures-counted-only-for-failed-attempts", CS, "        s.failedAttempts += 1\n        delay = s.timeoutForAttempt(s.failedAttempts)\n",
+           "        nth = s.failedAttempts + 1\n        delay = s.timeoutForAttempt(nth)\n",
+           more=[(CS, "    def failedWhenConnecting(c: _Client, s: _Core, failure: Failure) -> None:\n        ready = []\n",
+                  "    def failedWhenConnecting(c: _Client, s: _Core, failure: Failure) -> None:\n        s.failedAttempts += 1\n        ready = []\n")],
+           expect_rule="retry/delay-counts-consecutive-failures"),
+    Mutant("start-after-stop-ignored", CS, "    Stopped.upon(_Client.start).to(Connecting).returns(None)\n", "    Stopped.upon(_Client.start).loop().returns(None)\n", expect_rule="running/never-idle"),
+    Mutant("stop-while-waiting-goes-to-disconnecting", CS, "    @pep614(Waiting.upon(_Client.stop).to(Stopped))\n", "    @pep614(Waiting.upon(_Client.stop).to(Disconnecting))\n",
+           expect_rule="stopped/converges-to-stopped"),
+    Mutant("retry-scheduled-twice", CS, "        return s.clock.callLater(delay, c._reconnect)\n", "        s.clock.callLater(delay, c._reconnect)\n        return s.clock.callLater(delay, c._reconnect)\n",
+           expect_rule="retry/delay-from-policy"),
     Mutant("service-start-unguarded-double", CS, "        super().startService()\n        self._machine.start()\n", "        super().startService()\n", expect_rule="service/forwards-to-machine"),
 ]
 SILENT = [
@@ -675,5 +829,9 @@ SILENT = [
     Silent("cancel-before-wait", CS, "        waited = s.waitForStop()\n        attempt.cancel()\n        return waited\n", "        attempt.cancel()\n        waited = s.waitForStop()\n        return waited\n"),
     Silent("unawait-explicit-swap", CS, "        self.awaitingConnected, waiting = [], self.awaitingConnected\n", "        waiting = self.awaitingConnected\n        self.awaitingConnected = []\n"),
     Silent("duplicate-state-declaration-removed", CS, "    Restarting = machine.state(\"Restarting\")\n    Stopped = machine.state(\"Stopped\")\n", "    Restarting = machine.state(\"Restarting\")\n"),
+    Silent("increment-in-helper-called-by-the-retry-factory", CS, "    def waitForRetry(\n", "    def countFailure(s: _Core) -> int:\n        s.failedAttempts += 1\n        return s.failedAttempts\n\n    def waitForRetry(\n",
+           more=[(CS, "        s.failedAttempts += 1\n        delay = s.timeoutForAttempt(s.failedAttempts)\n", "        delay = s.timeoutForAttempt(countFailure(s))\n")]),
+    Silent("increment-through-a-local", CS, "        s.failedAttempts += 1\n        delay = s.timeoutForAttempt(s.failedAttempts)\n",
+           "        nth = s.failedAttempts + 1\n        s.failedAttempts = nth\n        delay = s.timeoutForAttempt(nth)\n"),
     Silent("failure-limit-rewritten", CS, "            elif remaining <= 1:\n", "            elif not remaining > 1:\n"),
 ]
